@@ -186,7 +186,15 @@ class Cap:
 
 def main():
     res = {}
-    for name, f in SC.items():
+    # what a process simulated earlier is part of "the process" a result must not depend on: the scenarios run
+    # forwards, backwards or rotated (the output is keyed and sorted by name)
+    items = list(SC.items())
+    order = os.environ.get("C14_ORDER", "fwd")
+    if order == "rev":
+        items.reverse()
+    elif order == "rot":
+        items = items[4:] + items[:4]
+    for name, f in items:
         w = f()
         w._ctx = []
         if w.hooks is None:
